@@ -8,6 +8,5 @@ sh coq/mkproject.sh
 ( cd coq && timeout 7200 make -j16 -k >/dev/null 2>&1 || echo "setup: some Coq files did not compile (the checks that need them will say so)" )
 mkdir -p _build
 [ -f harness/Cargo.lock ] || cp /repo/Cargo.lock harness/Cargo.lock
-( cd harness && CARGO_TARGET_DIR=/verif/_build/target RUSTFLAGS="--cfg recmo_uint_verif -Awarnings" cargo build --offline --bins >/dev/null 2>&1 || true )
-( cd harness && CARGO_TARGET_DIR=/verif/_build/target RUSTFLAGS="--cfg recmo_uint_verif -Awarnings" cargo build --offline --release --bins >/dev/null 2>&1 || true )
+python3 tools_build_harness.py || echo "setup: some harness bins did not build (the checks that need them will say so)"
 echo setup-ok
